@@ -588,6 +588,8 @@ def h10f_pre(op1, o1, c1, r1, op2, o2, c2, r2, ab):
             return False
     if S("tier") == "quick" and ab and op1 >= S_DEL_RD:
         return False  # quick: the absolute spelling only with the delete-by-type forms
+    if S("tier") == "quick" and op2 in (S_REPLACE, S_DEL_A) and op1 >= S_ADD:
+        return False  # quick: add / replace / delete-A are followed by a signature deletion or an add
     return op1 == S("op1")
 
 
